@@ -52,30 +52,83 @@ def translation_units(tier):
     return tus
 
 
-def source_hash():
+INCLUDE_RE = None
+
+
+def _tu_deps(path, seen):
+    """transitive closure of #include "..."/<...> that resolve inside REPO or VERIF/inst (regex scan, no preprocessing:
+    over-approximates conditional includes, which only makes the cache key more conservative)"""
+    import re
+    global INCLUDE_RE
+    if INCLUDE_RE is None:
+        INCLUDE_RE = re.compile(r'^\s*#\s*include\s*[<"]([^>"]+)[>"]', re.M)
+    if path in seen:
+        return
+    seen.add(path)
+    try:
+        txt = open(path, encoding="utf-8", errors="replace").read()
+    except OSError:
+        return
+    for inc in INCLUDE_RE.findall(txt):
+        for base in (os.path.dirname(path), REPO, os.path.join(VERIF, "inst")):
+            cand = os.path.normpath(os.path.join(base, inc))
+            if os.path.isfile(cand) and (cand.startswith(REPO + "/") or cand.startswith(VERIF + "/")):
+                _tu_deps(cand, seen)
+                break
+
+
+_file_hash_cache = {}
+
+
+def _fhash(path):
+    h = _file_hash_cache.get(path)
+    if h is None:
+        with open(path, "rb") as fh:
+            h = hashlib.sha256(fh.read()).hexdigest()
+        _file_hash_cache[path] = h
+    return h
+
+
+def _plugin_hash():
+    return _fhash(os.path.join(VERIF, "plugin", "xfacts.cc")) + _fhash(os.path.abspath(__file__))
+
+
+def tu_key(path, variant, extra):
+    deps = set()
+    _tu_deps(path, deps)
     h = hashlib.sha256()
-    files = []
-    for root in (os.path.join(REPO, "xenium"), os.path.join(REPO, "test"), os.path.join(VERIF, "inst")):
-        for dp, _, fns in os.walk(root):
-            for fn in fns:
-                files.append(os.path.join(dp, fn))
-    files.append(os.path.join(VERIF, "plugin", "xfacts.cc"))
-    files.append(os.path.abspath(__file__))
-    for f in sorted(files):
-        h.update(f.encode())
-        with open(f, "rb") as fh:
-            h.update(hashlib.sha256(fh.read()).digest())
-    h.update(REPO.encode())
-    return h.hexdigest()[:24]
+    h.update(_plugin_hash().encode())
+    h.update(variant.encode())
+    h.update(" ".join(VARIANTS[variant]).encode())
+    for d in sorted(deps):
+        rel = d.replace(REPO + "/", "R/").replace(VERIF + "/", "V/")
+        h.update(rel.encode())
+        h.update(_fhash(d).encode())
+    return h.hexdigest()[:32]
 
 
 class AnalysisBroken(Exception):
     """exit code 2: the analysis could not be performed (never a verdict)"""
 
 
+def _rel(p):
+    return p.replace(REPO + "/", "") if p.startswith(REPO + "/") else p
+
+
 def _run_tu(args):
-    name, path, extra, variant, outdir = args
-    out = os.path.join(outdir, (name + "." + variant).replace("/", "_") + ".jsonl")
+    name, path, extra, variant, key = args
+    tudir = os.path.join(CACHE, "tu")
+    pk = os.path.join(tudir, key + ".pickle")
+    if os.path.exists(pk):
+        try:
+            with open(pk, "rb") as fh:
+                d = pickle.load(fh)
+            os.utime(pk)
+            d["cached"] = True
+            return d
+        except Exception:
+            pass
+    out = os.path.join(tudir, key + ".%d.jsonl" % os.getpid())
     cmd = ["clang++", "-fsyntax-only", "-std=gnu++17", "-w", "-I" + REPO, "-I" + os.path.join(VERIF, "inst")] + VARIANTS[variant] + extra + [
         "-fplugin=" + PLUGIN, "-Xclang", "-add-plugin", "-Xclang", "xfacts",
         "-Xclang", "-plugin-arg-xfacts", "-Xclang", "out=" + out,
@@ -83,90 +136,109 @@ def _run_tu(args):
         path]
     t0 = time.time()
     r = subprocess.run(cmd, stdout=subprocess.PIPE, stderr=subprocess.STDOUT, text=True)
-    return name, variant, out, r.returncode, r.stdout, time.time() - t0
+    d = {"name": name, "variant": variant, "rc": r.returncode, "log": r.stdout[-3000:], "fns": [], "recs": [], "summary": None,
+         "seconds": round(time.time() - t0, 2), "cached": False}
+    if r.returncode == 0 and os.path.exists(out):
+        with open(out) as fh:
+            for line in fh:
+                rec = json.loads(line)
+                kind = rec.pop("kind")
+                if kind == "fn":
+                    rec["file"] = _rel(rec["file"])
+                    insts = rec.pop("insts")
+                    k = hashlib.sha1(json.dumps(rec, sort_keys=True).encode()).hexdigest()
+                    d["fns"].append((k, rec, insts[:12]))
+                elif kind == "rec":
+                    rec["file"] = _rel(rec["file"])
+                    full = rec.pop("full")
+                    k = hashlib.sha1(json.dumps(rec, sort_keys=True).encode()).hexdigest()
+                    d["recs"].append((k, rec, full))
+                elif kind == "summary":
+                    d["summary"] = rec
+        tmp = pk + ".tmp%d" % os.getpid()
+        with open(tmp, "wb") as fh:
+            pickle.dump(d, fh, protocol=pickle.HIGHEST_PROTOCOL)
+        os.replace(tmp, pk)
+    try:
+        os.unlink(out)
+    except OSError:
+        pass
+    return d
 
 
 def build_facts(tier="quick"):
     ensure_plugin()
-    key = source_hash()
-    os.makedirs(CACHE, exist_ok=True)
+    os.makedirs(os.path.join(CACHE, "tu"), exist_ok=True)
+    jobs = []
+    for name, path, extra in translation_units(tier):
+        for variant in VARIANTS:
+            jobs.append((name, path, extra, variant, tu_key(path, variant, extra)))
+    key = hashlib.sha256((" ".join(sorted(j[0] + j[3] + j[4] for j in jobs))).encode()).hexdigest()[:24]
     pk = os.path.join(CACHE, key + ".pickle")
     if os.path.exists(pk):
-        with open(pk, "rb") as fh:
-            return pickle.load(fh)
+        try:
+            with open(pk, "rb") as fh:
+                d = pickle.load(fh)
+            os.utime(pk)
+            return d
+        except Exception:
+            pass
     lock = open(os.path.join(CACHE, "lock"), "w")
     fcntl.flock(lock, fcntl.LOCK_EX)
     try:
         if os.path.exists(pk):
             with open(pk, "rb") as fh:
                 return pickle.load(fh)
-        outdir = os.path.join(CACHE, key + ".d")
-        os.makedirs(outdir, exist_ok=True)
-        jobs = []
-        for name, path, extra in translation_units(tier):
-            for variant in VARIANTS:
-                jobs.append((name, path, extra, variant, outdir))
         t0 = time.time()
         with ThreadPoolExecutor(max_workers=int(os.environ.get("XV_JOBS", "16"))) as ex:
             results = list(ex.map(_run_tu, jobs))
         shapes = {}
         records = {}
         tu_info = []
-        for name, variant, out, rc, log, dt in results:
-            if rc != 0 or not os.path.exists(out):
-                raise AnalysisBroken("translation unit %s (%s) does not compile:\n%s" % (name, variant, log[-3000:]))
-            nfn = 0
-            with open(out) as fh:
-                for line in fh:
-                    rec = json.loads(line)
-                    if rec["kind"] == "fn":
-                        insts = rec.pop("insts")
-                        rec.pop("kind")
-                        k = json.dumps(rec, sort_keys=True)
-                        hk = hashlib.sha1(k.encode()).hexdigest()
-                        e = shapes.get(hk)
-                        if e is None:
-                            rec["insts"] = []
-                            rec["variants"] = set()
-                            rec["tus"] = set()
-                            e = shapes[hk] = rec
-                        for i in insts:
-                            if len(e["insts"]) < 12 and i not in e["insts"]:
-                                e["insts"].append(i)
-                        e["variants"].add(variant)
-                        e["tus"].add(name)
-                        nfn += 1
-                    elif rec["kind"] == "rec":
-                        rec.pop("kind")
-                        full = rec.pop("full")
-                        k = json.dumps(rec, sort_keys=True)
-                        e = records.get(k)
-                        if e is None:
-                            rec["fulls"] = []
-                            rec["variants"] = set()
-                            e = records[k] = rec
-                        if len(e["fulls"]) < 12 and full not in e["fulls"]:
-                            e["fulls"].append(full)
-                        e["variants"].add(variant)
-                    elif rec["kind"] == "summary":
-                        tu_info.append({"tu": name, "variant": variant, "functions": rec["functions"], "shapes": rec["shapes"],
-                                        "cfgfail": rec["cfgfail"], "seconds": round(dt, 2)})
-                        if rec["cfgfail"]:
-                            raise AnalysisBroken("CFG construction failed for %d functions in %s" % (rec["cfgfail"], name))
-            os.unlink(out)
-        try:
-            os.rmdir(outdir)
-        except OSError:
-            pass
+        for d in results:
+            name, variant = d["name"], d["variant"]
+            if d["rc"] != 0 or d["summary"] is None:
+                raise AnalysisBroken("translation unit %s (%s) does not compile:\n%s" % (name, variant, d["log"]))
+            if d["summary"]["cfgfail"]:
+                raise AnalysisBroken("CFG construction failed for %d functions in %s" % (d["summary"]["cfgfail"], name))
+            for k, rec, insts in d["fns"]:
+                e = shapes.get(k)
+                if e is None:
+                    e = shapes[k] = dict(rec)
+                    e["insts"] = []
+                    e["variants"] = set()
+                    e["tus"] = set()
+                for i in insts:
+                    if len(e["insts"]) < 12 and i not in e["insts"]:
+                        e["insts"].append(i)
+                e["variants"].add(variant)
+                e["tus"].add(name)
+            for k, rec, full in d["recs"]:
+                e = records.get(k)
+                if e is None:
+                    e = records[k] = dict(rec)
+                    e["fulls"] = []
+                    e["variants"] = set()
+                if len(e["fulls"]) < 12 and full not in e["fulls"]:
+                    e["fulls"].append(full)
+                e["variants"].add(variant)
+            tu_info.append({"tu": name, "variant": variant, "functions": d["summary"]["functions"], "shapes": d["summary"]["shapes"],
+                            "cfgfail": 0, "seconds": d["seconds"], "cached": d["cached"]})
         data = {"key": key, "shapes": list(shapes.values()), "records": list(records.values()), "tus": tu_info,
                 "build_s": round(time.time() - t0, 2)}
         tmp = pk + ".tmp%d" % os.getpid()
         with open(tmp, "wb") as fh:
             pickle.dump(data, fh, protocol=pickle.HIGHEST_PROTOCOL)
         os.replace(tmp, pk)
-        # keep the cache small: drop older pickles
+        # keep the cache small
         olds = sorted(glob.glob(os.path.join(CACHE, "*.pickle")), key=os.path.getmtime)
-        for o in olds[:-4]:
+        for o in olds[:-6]:
+            try:
+                os.unlink(o)
+            except OSError:
+                pass
+        olds = sorted(glob.glob(os.path.join(CACHE, "tu", "*.pickle")), key=os.path.getmtime)
+        for o in olds[:-600]:
             try:
                 os.unlink(o)
             except OSError:
@@ -241,14 +313,14 @@ class Fn:
 
     # ---- identity
     def where(self, nid=None):
-        rel = self.file.replace(REPO + "/", "")
+        rel = self.file
         if nid is None:
             return "%s:%d" % (rel, self.line)
         return "%s:%d" % (rel, self.nodes[nid].get("l", 0) or self.line)
 
     @property
     def relfile(self):
-        return self.file.replace(REPO + "/", "")
+        return self.file
 
     # ---- CFG
     def preds(self):
